@@ -334,8 +334,9 @@ def write_replay(spec, tier, seed, streams, target):
     res = run_in_child(spec, tier, seed, replay=streams, trace=True)
     if not _same(res, target):
         return None, res
-    os.makedirs(os.path.join(VERIF_DIR, "replays"), exist_ok=True)
-    path = os.path.join(VERIF_DIR, "replays", f"{spec.PROPERTY}-{seed}.json")
+    rdir = os.environ.get("VERIF_REPLAY_DIR") or os.path.join(VERIF_DIR, "replays")
+    os.makedirs(rdir, exist_ok=True)
+    path = os.path.join(rdir, f"{spec.PROPERTY}-{seed}.json")
     doc = {"property": spec.PROPERTY, "tier": tier, "run_seed": seed,
            "code_digest": code_digest(getattr(spec, "FILES", [])),
            "violation": target, "all_violations": res["violations"], "plan": res.get("plan"),
@@ -462,9 +463,9 @@ def finish_check(spec, tier, base_seed, total, known, t0, stopped_early, planned
                          f"seed={v['seed']} did not reproduce on replay")
             exit_code = max(exit_code, 2)
             continue
-        rel = os.path.relpath(path, VERIF_DIR)
+        rel = os.path.relpath(path, VERIF_DIR) if path.startswith(VERIF_DIR + os.sep) else path
         lines.append(f"violation class={x['class']} site={x['site']} runs={len(items)} seed={v['seed']} "
-                     f"shrink_runs={used}: {x.get('message', '')}")
+                     f"shrink_runs={used}: " + " ".join(str(x.get('message', '')).split())[:400])
         lines.append(f"VIOLATION property={prop} replay={rel}")
         reported.append({"class": x["class"], "site": x["site"], "runs": len(items), "known": False,
                          "replay": rel})
@@ -499,8 +500,9 @@ def finish_check(spec, tier, base_seed, total, known, t0, stopped_early, planned
 
 
 def write_evidence(spec, tier, base_seed, total, wall, reported, stopped_early, planned):
-    os.makedirs(os.path.join(VERIF_DIR, "evidence"), exist_ok=True)
-    path = os.path.join(VERIF_DIR, "evidence", f"{spec.PROPERTY}.json")
+    edir = os.environ.get("VERIF_EVIDENCE_DIR") or os.path.join(VERIF_DIR, "evidence")
+    os.makedirs(edir, exist_ok=True)
+    path = os.path.join(edir, f"{spec.PROPERTY}.json")
     runs = total["runs"]
     per_hour = runs / wall * 3600 if wall > 0 else 0
     ev = {
